@@ -46,7 +46,7 @@ def c02_jobs(tier):
             sizes += [65535, 65536] if W[k] == 1 else [65536]
         for b in sizes:
             jobs.append(J("hsms", "ZZ_C02_boundary", kind=k, n=(b + W[k] - 1) // W[k], fuel=2_000_000_000, timeout_s=7200))
-    for n in ([300, 70000] if tier == "quick" else [300, 70000, 16777215]):
+    for n in [300, 70000, 16777215]:  # the last one puts a 1 in the top byte of the message length
         jobs.append(J("hsms", "ZZ_C02_bigmessage", n=n, heavy=(1 if n > 500000 else 0), fuel=8_000_000_000, timeout_s=7200))
     return jobs
 
@@ -117,8 +117,8 @@ def c07_jobs(tier):
                     jobs.append(J("hsms", "ZZ_C07_declared", depth=d, nlb=nlb, present=present, kind=kind))
     for nlb, kind in ((2, 1), (3, 1), (3, 0), (3, 3), (2, 6)):
         jobs.append(J("hsms", "ZZ_C07_sparecap", nlb=nlb, kind=kind, extra=200000, fuel=400_000_000, timeout_s=(1500 if tier == "quick" else 7200)))
-    for fam in range(8):
-        scale = {3: 30000, 6: 6000, 7: 16000}.get(fam, 20000)
+    for fam in range(9):
+        scale = {3: 15000, 6: 3000, 7: 8000, 8: 6000}.get(fam, 10000)  # members scale and 2*scale are decoded natively
         jobs.append(J("hsms", "ZZ_C07_growth", fam=fam, j=(32 if tier == "quick" or fam == 6 else 128), scale=scale, fuel=400_000_000))
     return jobs
 
@@ -138,7 +138,10 @@ def c09_jobs(tier):
         for lo, hi in ((0, -1), (1, 2), (2, 2), (0, 0), (3, -1)):
             jobs.append(J("ast", "ZZ_C09_ascii", k=k, lo=lo, hi=hi))
     for fill in range(32):
-        jobs.append(J("ast", "ZZ_C09_list", fill=fill))
+        jobs.append(J("ast", "ZZ_C09_list", fill=fill, lvkind=0))
+        if fill & 2:
+            jobs.append(J("ast", "ZZ_C09_list", fill=fill, lvkind=1))
+            jobs.append(J("ast", "ZZ_C09_list", fill=fill, lvkind=2))
     for order in range(6):
         jobs.append(J("ast", "ZZ_C09_message", order=order))
     return jobs
@@ -177,9 +180,12 @@ def c10_jobs(tier):
                          "force.tnb": nb, "force.tb_0k": k, "force.tell": ell}
                     out.append(J("ast", "ZZ_C10_expand", **p, **kw))
         return out
+    big = 11 if tier == "quick" else 101
+    fixed = [J("ast", "ZZ_C10_shapes", shape=0, n=big, depth=0), J("ast", "ZZ_C10_shapes", shape=1, n=11, depth=0)]
+    fixed += [J("ast", "ZZ_C10_shapes", shape=2, n=0, depth=d) for d in ((1, 3, 5) if tier == "quick" else (1, 2, 3, 4, 5, 6))]
     if tier == "quick":
-        return shards(1, 2, 1, 2, 2, 1, 0, timeout_s=1500)
-    return (shards(1, 2, 1, 2, 3, 1, 1, timeout_s=7200) + shards(2, 1, 1, 2, 2, 1, 0, timeout_s=7200)
+        return fixed + shards(1, 2, 1, 2, 2, 1, 0, timeout_s=1500)
+    return fixed + (shards(1, 2, 1, 2, 3, 1, 1, timeout_s=7200) + shards(2, 1, 1, 2, 2, 1, 0, timeout_s=7200)
             + shards(1, 2, 1, 1, 2, 2, 1, timeout_s=7200) + shards(0, 3, 1, 3, 4, 0, 0, timeout_s=7200))
 
 
@@ -200,10 +206,13 @@ def c05_jobs(tier):
             if tier == "quick":
                 combos = [(0, 1), (0, 3), (1, 2), (3, 8)] + ([(2, 3)] if typ in (5, 11, 1) else [])
             else:
-                combos = [(0, 1), (0, 2), (0, 3), (0, 5), (0, 10), (0, 19), (0, 20), (1, 1), (1, 2), (1, 4), (1, 8), (1, 16), (1, 17),
-                          (2, 3), (2, 6), (2, 11), (2, 22), (3, 8), (3, 9), (3, 16), (3, 32), (3, 64)]
+                combos = [(0, 1), (0, 2), (0, 3), (0, 5), (1, 1), (1, 2), (1, 4), (1, 8), (2, 3), (2, 6), (3, 8), (3, 9), (3, 16)]
             for cls, k in combos:
-                jobs.append(J("sml", "ZZ_C05_int", typ=typ, cls=cls, k=k, neg=neg, **T))
+                jobs.append(J("sml", "ZZ_C05_int", typ=typ, cls=cls, k=k, neg=neg, edge=0, **T))
+            # literals straddling the limit of the type: leading digits of the limit concrete, last digit(s) symbolic
+            for cls in (0, 1, 2, 3):
+                for edge in ((1,) if tier == "quick" else (1, 2)):
+                    jobs.append(J("sml", "ZZ_C05_int", typ=typ, cls=cls, k=0, neg=neg, edge=edge, **T))
     for typ in INT_TYPES + [1]:
         jobs.append(J("sml", "ZZ_C05_two", typ=typ, **T))
     for typ in ([1, 5, 12, 10] if tier == "quick" else INT_TYPES + [1]):
@@ -270,8 +279,11 @@ def c06_jobs(tier):
     if tier == "quick":
         for sk, pos in hot[:7]:
             jobs.append(J("sml", "ZZ_C06_soup", sk=sk, n=2, pos=pos, **T))
+    for which in (10, 11, 12):
+        for k in ((1, 2) if tier == "quick" else (1, 2, 3)):
+            jobs.append(J("sml", "ZZ_C06_numbers", which=which, k=k, **T))
     for which in range(10):
-        for k in ([1, 3, 10] if tier == "quick" else [1, 2, 3, 5, 8, 10, 12, 19, 20]):
+        for k in ([1, 3, 10] if tier == "quick" else [1, 2, 3, 5, 8, 10, 12]):
             if tier == "quick" and k == 10 and which in (3, 6, 9):
                 continue  # 10-digit value literals are solver-heavy: thorough tier
             jobs.append(J("sml", "ZZ_C06_numbers", which=which, k=k, **T))
@@ -294,7 +306,7 @@ def c19_jobs(tier):
     return jobs
 
 
-SEQ_TOK = [20, 17, 16, 7, 14, 7, 16, 32]
+SEQ_TOK = [20, 17, 16, 7, 14, 7, 16, 32, 29]
 
 
 def c08_jobs(tier):
@@ -458,7 +470,7 @@ PROPS = {
     "C05": dict(jobs=c05_jobs, must_reach=["end"],
                 level_text="Bounded model checking: message texts with literal holes whose every digit/character is symbolic are run through the real lexer and parser (regexp, strconv.ParseInt/ParseUint interpreted from their SSA); the denoted value is computed by the harness from the hole bytes and compared with the stored bytes; unrepresentable literals must give an error and no message.",
                 level_note="Trusted: go/ssa, engine incl. regexp simulation and string models, z3. Float text->value conversion is trusted strconv (concrete menu only).",
-                bounds={"quick": "integer literals: decimal k<=3 digits, hex 2, octal 3, binary 8; strings k<=3 bytes", "thorough": "decimal up to 20 digits, hex 17, octal 22, binary 64 (overflow side of every width); strings k<=5"},
+                bounds={"quick": "integer literals: decimal k<=3 digits, hex 2, octal 3, binary 8, plus literals straddling the limit of every width (1 symbolic trailing digit) in all four bases; strings k<=3 bytes", "thorough": "decimal k<=5, hex 8, octal 6, binary 16 symbolic digits, plus literals straddling the limit of every width (1-2 symbolic trailing digits) in all four bases; strings k<=5"},
                 outside=["decimal literals with a leading zero, '_' separators, '+' on unsigned items, '-0' on unsigned items (unspecified)", "control characters inside quoted strings other than CR/LF", "the text->float mapping of strconv.ParseFloat"]),
     "C11": dict(jobs=c11_jobs,
                 level_text="Bounded model checking of the aliasing channels: every slice/map passed in or returned is mutated in place by a symbolic non-zero mask at a chosen position, and all observers of every pre-existing object are compared with their snapshots; the engine's slices share backing arrays exactly as Go's do.",
